@@ -68,6 +68,11 @@ Definition raw_texts (its : list item) : list str :=
                      | IText x => [x]
                      | IClose _ => []
                      end) its.
+(* the attribute values, which emit writes between double quotes: a well-formed output needs them free of it *)
+Definition attr_values (its : list item) : list str :=
+  flat_map (fun i => match i with IOpen _ a | IEmpty _ a => map snd a | _ => [] end) its.
+Definition attrs_quote_free (its : list item) : bool :=
+  forallb (fun v => negb (mem_ascii c_quot v)) (attr_values its).
 Fixpoint scalar_leaves (v : value) : list value :=
   match v with
   | VMap m => flat_map (fun kv => scalar_leaves (snd kv)) m
